@@ -142,6 +142,8 @@ fn run_suite<S: ShortGroupSignatureScheme + 'static>(em: &mut Emitter, base: &mu
         // one credential, signature statement only or with light predicates on undisclosed claims
         let n_claims = 3 + rng.below(4) as usize;
         let mut mix = Mix { n_creds: 1, n_claims, age: rng.range(0, 90), ..Default::default() };
+        // numbers at the ends of the domain in some scenarios
+        mix.age = match k % 7 { 3 => i64::MIN + 1, 4 => i64::MAX - 1, 5 => i64::MIN, 6 => -1, _ => mix.age };
         if k % 3 == 1 {
             mix.revocation = true;
         }
@@ -154,6 +156,9 @@ fn run_suite<S: ShortGroupSignatureScheme + 'static>(em: &mut Emitter, base: &mu
         }
         if d.is_empty() {
             d.push(LABELS[1].to_string());
+        }
+        if k % 7 >= 3 && !d.iter().any(|l| l == "age") {
+            d.push("age".to_string());
         }
         mix.disclosed = vec![d.clone()];
         let scn = Scn::<S>::build(rng, &mix);
@@ -332,6 +337,11 @@ fn run_suite<S: ShortGroupSignatureScheme + 'static>(em: &mut Emitter, base: &mu
                 let orig = p.disclosed_messages[&sid][&l].clone();
                 let sc = orig.to_scalar();
                 let mut alts: Vec<ClaimData> = vec![];
+                // neighbouring numbers (the holder edits its own copy by one)
+                if let ClaimData::Number(nc) = &orig {
+                    alts.push(NumberClaim::from(nc.value.wrapping_sub(1)).into());
+                    alts.push(NumberClaim::from(nc.value.wrapping_add(1)).into());
+                }
                 if !matches!(orig, ClaimData::Scalar(_)) {
                     alts.push(ScalarClaim::from(sc).into());
                 }
